@@ -65,6 +65,29 @@ def gen(rng, tier):
     for be in ("asyncio", "trio"):
         for paths in ([b"/crash0", b"/ok1"], [b"/crash1", b"/ok2"], [b"/crash0", b"/crash1", b"/crash0", b"/ok3"]):
             yield {"family": "serve-smoke", "kind": "serve-smoke", "backend": be, "paths": paths}
+    # WSGI applications failing part-way through their iterable, behind the real WSGIWrapper (executor threads)
+    for k in range(60 if tier == "quick" else 1500):
+        version = rng.choice(["1.1", "2"])
+        shape = rng.choice(["generator", "iter_close", "lazy_iter_close"])
+        chunks = [b"chunk-%d-" % j * rng.choice([1, 40, 400]) for j in range(rng.choice([1, 2, 4]))]
+        raise_at = rng.randint(0, len(chunks) - 1)
+        tag = 900000 + k
+        spec = {"shape": shape, "status": "200 OK", "headers": [("X-W", "v%d" % tag)], "chunks": chunks, "raise_at": raise_at,
+                "max_body": 65536, "via": "wrapper"}
+        if version == "2":
+            fb = FrameBuilder()
+            data = client_preface(fb, {}) + fb.headers(1, [(b":method", b"GET"), (b":scheme", b"http"), (b":path", b"/t%d" % tag),
+                                                           (b":authority", b"h")], end_stream=True)
+            extra = {"reactor": {"kind": "h2", "credit": "auto"}}
+        else:
+            data = h1.build_request(b"GET", b"/t%d" % tag, [(b"Host", b"h")])
+            extra = {}
+        for be in ("asyncio", "trio"):
+            yield dict({"family": "wsgi.%s.h%s" % (shape, version), "backends": [be], "config": {"keep_alive_timeout": 5000}, "conn": {},
+                        "wsgi": spec, "apps": {}, "client": [["feed", data], ["settle"]],
+                        "truth": {"proto": "wsgi", "kind": "raise", "version": version, "chunks": chunks, "raise_at": raise_at, "shape": shape,
+                                  "tag": tag},
+                        "sched": {"seed": rng.randrange(1 << 30)}, "horizon": 30.0}, **extra)
     n = 0
     reps = 4 if tier == "quick" else 30
     for rep in range(reps):
@@ -157,6 +180,9 @@ def gen(rng, tier):
 def nontrivial(case, obs):
     if obs is None:
         return True
+    if case.get("truth", {}).get("proto") == "wsgi":
+        rec = obs.apps if isinstance(obs.apps, dict) else {}
+        return bool(rec.get("calls"))
     return any(e[3] == "note" for e in obs.trace.events if e[2] == "app")
 
 
@@ -230,6 +256,36 @@ def check(case, obs, tally):
             out.append({"clause": "logged", "sig": "C05.not-logged/%s" % t["proto"],
                         "detail": "application raised but no error record was logged"})
     closed = obs.closed_at is not None
+    if t["proto"] == "wsgi":
+        if t["version"] == "2":
+            st = obs.reactor.streams.get(1)
+            status, complete, got = (st.status, st.ended == 1, bytes(st.data)) if st else (None, False, b"")
+            terminated = bool(st and (st.rst is not None or st.ended))
+        else:
+            try:
+                resps, _ = h1.parse_responses(obs.outbytes, [("GET", "1.1")], closed)
+            except h1.Malformed as e:
+                out.append({"clause": "truncated", "sig": "C05.wsgi/malformed", "detail": str(e)})
+                return out
+            r = resps[0] if resps else None
+            status, complete, got = (r.status, r.complete, r.body) if r else (None, False, b"")
+            terminated = closed
+        sent_before = b"".join(t["chunks"][:t["raise_at"]])
+        if not sent_before:
+            tally.clause("pre-start-500")
+            if status != 500 or not complete:
+                out.append({"clause": "pre-start-500", "sig": "C05.no-500/wsgi-h%s" % t["version"],
+                            "detail": "WSGI iterable raised before yielding any data: client got status %r complete=%r" % (status, complete)})
+        else:
+            tally.clause("truncated")
+            if complete:
+                out.append({"clause": "truncated", "sig": "C05.falsely-complete/wsgi-h%s/%s" % (t["version"], t["shape"]),
+                            "detail": "WSGI iterable raised at chunk %d after %d bytes had been yielded, but the client parsed a COMPLETE %r response of %d bytes" % (
+                                t["raise_at"], len(sent_before), status, len(got))})
+            elif not terminated:
+                out.append({"clause": "truncated", "sig": "C05.not-terminated/wsgi-h%s" % t["version"],
+                            "detail": "WSGI iterable raised mid-response; response truncated but neither reset nor closed at quiescence"})
+        return out
     if t["proto"] == "h1":
         started, sent, completed = t["progress"]
         reqs = ([("GET", "1.1")] if t["first"] else []) + [("POST", "1.1")]
